@@ -105,6 +105,10 @@ type c09FaultUse struct {
 func newC09Backend(name string, seed uint64) *c09Backend {
 	inner := &vBackend{name: name, daemon: verifNewDaemon(), tables: map[string]*vTable{}, conns: map[net.Conn]bool{}, failAfter: -1}
 	inner.SetDataset(vDefaultDataset(newVRand(seed), 3, 7))
+	// fewer custom variable values than names on one host and one service
+	inner.SetCell("hosts", []string{"vhost2"}, "custom_variable_names", []interface{}{"SITE", "FOO"})
+	inner.SetCell("services", []string{"vhost2", "vsvc1"}, "custom_variable_names", []interface{}{"BAR", "FOO"})
+	inner.SetCell("services", []string{"vhost2", "vsvc1"}, "custom_variable_values", []interface{}{"x"})
 	bk := &c09Backend{inner: inner, conns: map[net.Conn]bool{}, addr: filepath.Join(vSockDir(), fmt.Sprintf("%d-c09%s.sock", os.Getpid(), name))}
 	os.Remove(bk.addr)
 	ln, err := net.Listen("unix", bk.addr)
